@@ -255,5 +255,4 @@ theorem findSequence_ok (sg : Suggest) (hs : Sound sg) (fuel : Nat) (T c : List 
       · intro x hx
         exact hmemf x (hI.targets x hx)
 
-#print axioms findSequence_ok
 end P
